@@ -11,9 +11,11 @@
      Decode(ty, buf, off, rdlen, origin)   [res, why, v]: parse the rdlen octets at offset
                                            off of the message buf (names may point backwards
                                            into buf), res = "ok" | "free" | "err"
-   "err"  : no RFC-conforming decoder may return a value (why = "short": a field does not
+   "err"  : not the encoding of a well-formed value (why = "short": a field does not
             fit / bad label type / bad pointer / bad selector; "trailing": all fields parsed
-            but octets of the RDATA are left over; "invalid": WellFormed fails)
+            but octets of the RDATA are left over; "malformed": ill-formed in a way the RFC
+            tells every receiver to refuse; "invalid": WellFormed fails otherwise - a lenient
+            decoder may still return a value)
    "free" : parses and is well-formed, but the table does not decide whether an
             implementation accepts it (MayReject; "implementation may reject more")
    "ok"   : every conforming implementation must accept and obtain v.                      *)
@@ -55,8 +57,9 @@ Relativize(labels, origin) ==
     THEN Nm(FALSE, SubSeq(labels, 1, n - m))
     ELSE Nm(TRUE, labels)
 
-Fail == [ok |-> FALSE, v |-> 0, p |-> 0]
-Got(v, p) == [ok |-> TRUE, v |-> v, p |-> p]
+DFail == [ok |-> FALSE, v |-> 0, p |-> 0, c |-> FALSE]
+GotC(v, p, c) == [ok |-> TRUE, v |-> v, p |-> p, c |-> c]   \* c: a compression pointer was followed
+Got(v, p) == GotC(v, p, FALSE)
 
 (* Name decoding (RFC 1035 4.1.4).  p = index of the next octet (1-based), end = index of
    the last octet the parser may read, big = a pointer must lead strictly before this
@@ -65,19 +68,19 @@ Got(v, p) == [ok |-> TRUE, v |-> v, p |-> p]
    the field ends. *)
 RECURSIVE NameWalk(_, _, _, _, _, _, _)
 NameWalk(buf, p, end, big, labels, len, next) ==
-    IF p > end THEN Fail
+    IF p > end THEN DFail
     ELSE LET c == buf[p] IN
-         IF c = 0 THEN (IF len + 1 <= 255 THEN Got(labels, IF next = 0 THEN p + 1 ELSE next) ELSE Fail)
-         ELSE IF c < 64 THEN (IF p + c > end THEN Fail
+         IF c = 0 THEN (IF len + 1 <= 255 THEN GotC(labels, IF next = 0 THEN p + 1 ELSE next, next # 0) ELSE DFail)
+         ELSE IF c < 64 THEN (IF p + c > end THEN DFail
                               ELSE NameWalk(buf, p + 1 + c, end, big, Append(labels, SubSeq(buf, p + 1, p + c)), len + 1 + c, next))
-         ELSE IF c >= 192 THEN (IF p + 1 > end THEN Fail
+         ELSE IF c >= 192 THEN (IF p + 1 > end THEN DFail
                                 ELSE LET tgt == (c - 192) * 256 + buf[p + 1] + 1 IN
-                                     IF tgt >= big THEN Fail
+                                     IF tgt >= big THEN DFail
                                      ELSE NameWalk(buf, tgt, end, tgt, labels, len, IF next = 0 THEN p + 2 ELSE next))
-         ELSE Fail
+         ELSE DFail
 DecName(buf, p, end, origin) ==
     LET r == NameWalk(buf, p, end, p, <<>>, 0, 0) IN
-    IF r.ok THEN Got(Relativize(r.v, origin), r.p) ELSE Fail
+    IF r.ok THEN GotC(Relativize(r.v, origin), r.p, r.c) ELSE DFail
 
 (* ------------------------------------------------------------------ encoding *)
 RECURSIVE EncLp1s(_)
@@ -115,6 +118,17 @@ RECURSIVE EncFrom(_, _, _, _)
 EncFrom(sch, v, i, origin) == IF i > Len(sch) THEN <<>> ELSE EncField(sch[i], v[i], origin) \o EncFrom(sch, v, i + 1, origin)
 Encode(ty, v, origin) == EncFrom(Schema[ty], v, 1, origin)
 
+\* DNSSEC canonical form of the RDATA (RFC 4034 6.2, RFC 6840 5.1, RFC 3597 7): as Encode, with the
+\* names of the fields marked l (canon = lower) lower-cased.  Not bound by C02; for C07 / C15.
+LowerName(nm) == Nm(nm.abs, [i \in 1..Len(nm.labels) |-> LowerSeq(nm.labels[i])])
+CanonField(f, x, origin) ==
+    IF ~f.l THEN EncField(f, x, origin)
+    ELSE CASE f.k = "name" -> LabelsWire([i \in 1..Len(AbsLabels(x, origin)) |-> LowerSeq(AbsLabels(x, origin)[i])]) \o <<0>>
+           [] OTHER -> EncField(f, x, origin)
+RECURSIVE CanonFrom(_, _, _, _)
+CanonFrom(sch, v, i, origin) == IF i > Len(sch) THEN <<>> ELSE CanonField(sch[i], v[i], origin) \o CanonFrom(sch, v, i + 1, origin)
+Canon(ty, v, origin) == CanonFrom(Schema[ty], v, 1, origin)
+
 \* names occurring in a value (for Encodable / relative-name questions)
 FieldNames(f, x) ==
     CASE f.k = "name" -> {x}
@@ -129,66 +143,66 @@ CanEncode(ty, v, origin) == \A n \in ValueNames(ty, v) : Encodable(n, origin) /\
 RECURSIVE DecLp1s(_, _, _, _)
 DecLp1s(buf, p, end, acc) ==
     IF p > end THEN Got(acc, p)
-    ELSE IF p + buf[p] > end THEN Fail
+    ELSE IF p + buf[p] > end THEN DFail
     ELSE DecLp1s(buf, p + 1 + buf[p], end, Append(acc, SubSeq(buf, p + 1, p + buf[p])))
 RECURSIVE DecWindows(_, _, _, _)
 DecWindows(buf, p, end, acc) ==
     IF p > end THEN Got(acc, p)
-    ELSE IF p + 1 > end \/ p + 1 + buf[p + 1] > end THEN Fail
+    ELSE IF p + 1 > end \/ p + 1 + buf[p + 1] > end THEN DFail
     ELSE DecWindows(buf, p + 2 + buf[p + 1], end, Append(acc, <<buf[p], SubSeq(buf, p + 2, p + 1 + buf[p + 1])>>))
-RECURSIVE DecNames(_, _, _, _, _)
-DecNames(buf, p, end, origin, acc) ==
-    IF p > end THEN Got(acc, p)
+RECURSIVE DecNames(_, _, _, _, _, _)
+DecNames(buf, p, end, origin, acc, c) ==
+    IF p > end THEN GotC(acc, p, c)
     ELSE LET r == DecName(buf, p, end, origin) IN
-         IF ~r.ok THEN Fail ELSE DecNames(buf, r.p, end, origin, Append(acc, r.v))
+         IF ~r.ok THEN DFail ELSE DecNames(buf, r.p, end, origin, Append(acc, r.v), c \/ r.c)
 RECURSIVE DecApl(_, _, _, _)
 DecApl(buf, p, end, acc) ==
     IF p > end THEN Got(acc, p)
-    ELSE IF p + 3 > end THEN Fail
+    ELSE IF p + 3 > end THEN DFail
     ELSE LET l == buf[p + 3] % 128 IN
-         IF p + 3 + l > end THEN Fail
+         IF p + 3 + l > end THEN DFail
          ELSE DecApl(buf, p + 4 + l, end, Append(acc, <<U16At(buf, p), buf[p + 2], buf[p + 3] \div 128, SubSeq(buf, p + 4, p + 3 + l)>>))
 RECURSIVE DecTlvs(_, _, _, _)
 DecTlvs(buf, p, end, acc) ==
     IF p > end THEN Got(acc, p)
-    ELSE IF p + 3 > end THEN Fail
+    ELSE IF p + 3 > end THEN DFail
     ELSE LET l == U16At(buf, p + 2) IN
-         IF p + 3 + l > end THEN Fail
+         IF p + 3 + l > end THEN DFail
          ELSE DecTlvs(buf, p + 4 + l, end, Append(acc, <<U16At(buf, p), SubSeq(buf, p + 4, p + 3 + l)>>))
 
 DecField(f, buf, p, end, origin, vals) ==
     LET rem == end - p + 1 IN
-    CASE f.k = "u8"     -> IF rem >= 1 THEN Got(buf[p], p + 1) ELSE Fail
-      [] f.k = "u16"    -> IF rem >= 2 THEN Got(U16At(buf, p), p + 2) ELSE Fail
-      [] f.k = "fixed"  -> IF rem >= f.n THEN Got(SubSeq(buf, p, p + f.n - 1), p + f.n) ELSE Fail
+    CASE f.k = "u8"     -> IF rem >= 1 THEN Got(buf[p], p + 1) ELSE DFail
+      [] f.k = "u16"    -> IF rem >= 2 THEN Got(U16At(buf, p), p + 2) ELSE DFail
+      [] f.k = "fixed"  -> IF rem >= f.n THEN Got(SubSeq(buf, p, p + f.n - 1), p + f.n) ELSE DFail
       [] f.k = "name"   -> DecName(buf, p, end, origin)
-      [] f.k = "lp1"    -> IF rem >= 1 /\ rem - 1 >= buf[p] THEN Got(SubSeq(buf, p + 1, p + buf[p]), p + 1 + buf[p]) ELSE Fail
-      [] f.k = "lp2"    -> IF rem >= 2 /\ rem - 2 >= U16At(buf, p) THEN Got(SubSeq(buf, p + 2, p + 1 + U16At(buf, p)), p + 2 + U16At(buf, p)) ELSE Fail
+      [] f.k = "lp1"    -> IF rem >= 1 /\ rem - 1 >= buf[p] THEN Got(SubSeq(buf, p + 1, p + buf[p]), p + 1 + buf[p]) ELSE DFail
+      [] f.k = "lp2"    -> IF rem >= 2 /\ rem - 2 >= U16At(buf, p) THEN Got(SubSeq(buf, p + 2, p + 1 + U16At(buf, p)), p + 2 + U16At(buf, p)) ELSE DFail
       [] f.k = "lp1s"   -> DecLp1s(buf, p, end, <<>>)
       [] f.k = "lp1opt" -> IF rem = 0 THEN Got(<<>>, p)
-                           ELSE IF rem - 1 >= buf[p] THEN Got(SubSeq(buf, p + 1, p + buf[p]), p + 1 + buf[p]) ELSE Fail
+                           ELSE IF rem - 1 >= buf[p] THEN Got(SubSeq(buf, p + 1, p + buf[p]), p + 1 + buf[p]) ELSE DFail
       [] f.k = "rest"   -> Got(SubSeq(buf, p, end), end + 1)
       [] f.k = "bitmap" -> DecWindows(buf, p, end, <<>>)
       [] f.k = "gateway" ->
             LET g == vals[f.r] % f.m IN
             CASE g = 0 -> Got(<<"none">>, p)
-              [] g = 1 -> IF rem >= 4 THEN Got(<<"ipv4", SubSeq(buf, p, p + 3)>>, p + 4) ELSE Fail
-              [] g = 2 -> IF rem >= 16 THEN Got(<<"ipv6", SubSeq(buf, p, p + 15)>>, p + 16) ELSE Fail
-              [] g = 3 -> LET r == DecName(buf, p, end, origin) IN IF r.ok THEN Got(<<"name", r.v>>, r.p) ELSE Fail
-              [] OTHER -> Fail
-      [] f.k = "names"  -> DecNames(buf, p, end, origin, <<>>)
-      [] f.k = "hip"    -> IF rem < 4 THEN Fail
+              [] g = 1 -> IF rem >= 4 THEN Got(<<"ipv4", SubSeq(buf, p, p + 3)>>, p + 4) ELSE DFail
+              [] g = 2 -> IF rem >= 16 THEN Got(<<"ipv6", SubSeq(buf, p, p + 15)>>, p + 16) ELSE DFail
+              [] g = 3 -> LET r == DecName(buf, p, end, origin) IN IF r.ok THEN GotC(<<"name", r.v>>, r.p, r.c) ELSE DFail
+              [] OTHER -> DFail
+      [] f.k = "names"  -> DecNames(buf, p, end, origin, <<>>, FALSE)
+      [] f.k = "hip"    -> IF rem < 4 THEN DFail
                            ELSE LET hl == buf[p]  pl == U16At(buf, p + 2) IN
-                                IF rem - 4 < hl + pl THEN Fail
+                                IF rem - 4 < hl + pl THEN DFail
                                 ELSE Got(<<SubSeq(buf, p + 4, p + 3 + hl), buf[p + 1], SubSeq(buf, p + 4 + hl, p + 3 + hl + pl)>>, p + 4 + hl + pl)
       [] f.k = "apl"    -> DecApl(buf, p, end, <<>>)
       [] f.k = "tlvs"   -> DecTlvs(buf, p, end, <<>>)
 
-RECURSIVE DecFrom(_, _, _, _, _, _, _)
-DecFrom(sch, i, buf, p, end, origin, vals) ==
-    IF i > Len(sch) THEN Got(vals, p)
+RECURSIVE DecFrom(_, _, _, _, _, _, _, _)
+DecFrom(sch, i, buf, p, end, origin, vals, c) ==
+    IF i > Len(sch) THEN GotC(vals, p, c)
     ELSE LET r == DecField(sch[i], buf, p, end, origin, vals) IN
-         IF ~r.ok THEN Fail ELSE DecFrom(sch, i + 1, buf, r.p, end, origin, Append(vals, r.v))
+         IF ~r.ok THEN DFail ELSE DecFrom(sch, i + 1, buf, r.p, end, origin, Append(vals, r.v), c \/ r.c)
 
 (* ------------------------------------------------------------------ well-formedness *)
 \* lexicographic <= on equally long octet tuples (= numeric order of big-endian integers)
@@ -296,6 +310,7 @@ TypeValid(tag, v) ==
 
 MayRejectTag(tag, v) ==
     CASE tag = "gpos" -> ~(\A i \in 1..3 : SimpleDecimal(v[i]))
+      [] tag = "loc" -> \E i \in 2..4 : v[i] \div 16 = 0 /\ v[i] % 16 # 0     \* 0 x 10^e, e > 0: a second spelling of zero
       [] tag = "ds" -> ~(v[3] \in 1..4)
       [] tag = "zonemd" -> v[2] = 0 \/ v[3] = 0
       [] tag = "apl" -> \E i \in 1..Len(v[1]) : ~(v[1][i][1] \in {1, 2})
@@ -315,17 +330,25 @@ MayReject(ty, v) ==
     \/ \E i \in 1..Len(Schema[ty]) : Schema[ty][i].tk = "ttl32" /\ v[i][1] >= 128
     \/ MayRejectTag(TypeInfo[ty].free, v)
 
+\* Ill-formed values that the defining RFC tells every RECEIVER to refuse (not merely senders not
+\* to produce): RFC 9460 2.2 "Clients MUST consider an RR malformed if ... SvcParamKeys are not in
+\* strictly increasing numeric order"; RFC 1876 2 "Implementations are required to check [VERSION]".
+MustRefuse(ty, v) ==
+    CASE TypeInfo[ty].valid = "svcb" -> \E i \in 1..Len(v[3]) - 1 : v[3][i][1] >= v[3][i + 1][1]
+      [] TypeInfo[ty].valid = "loc" -> v[1] # 0
+      [] OTHER -> FALSE
+
 (* ------------------------------------------------------------------ Decode *)
-Verdict(res, why, v) == [res |-> res, why |-> why, v |-> v]
+Verdict(res, why, v, c) == [res |-> res, why |-> why, v |-> v, ptr |-> c]
 Decode(ty, buf, off, rdlen, origin) ==
-    IF off + rdlen > Len(buf) THEN Verdict("err", "short", <<>>)
+    IF off + rdlen > Len(buf) THEN Verdict("err", "short", <<>>, FALSE)
     ELSE LET end == off + rdlen
-             r == DecFrom(Schema[ty], 1, buf, off + 1, end, origin, <<>>) IN
-         IF ~r.ok THEN Verdict("err", "short", <<>>)
-         ELSE IF r.p # end + 1 THEN Verdict("err", "trailing", r.v)
-         ELSE IF ~WellFormed(ty, r.v) THEN Verdict("err", "invalid", r.v)
-         ELSE IF MayReject(ty, r.v) THEN Verdict("free", "-", r.v)
-         ELSE Verdict("ok", "-", r.v)
+             r == DecFrom(Schema[ty], 1, buf, off + 1, end, origin, <<>>, FALSE) IN
+         IF ~r.ok THEN Verdict("err", "short", <<>>, FALSE)
+         ELSE IF r.p # end + 1 THEN Verdict("err", "trailing", r.v, r.c)
+         ELSE IF ~WellFormed(ty, r.v) THEN Verdict("err", IF MustRefuse(ty, r.v) THEN "malformed" ELSE "invalid", r.v, r.c)
+         ELSE IF MayReject(ty, r.v) THEN Verdict("free", "-", r.v, r.c)
+         ELSE Verdict("ok", "-", r.v, r.c)
 DecodeRdata(ty, b, origin) == Decode(ty, b, 0, Len(b), origin)
 
 (* ------------------------------------------------------------------ type bitmaps *)
@@ -336,10 +359,9 @@ WindowOf(S, w) == LET T == {t % 256 : t \in {u \in S : u \div 256 = w}}
                   IN <<w, [o \in 1..(mx \div 8 + 1) |-> Bit(o - 1, 0) + Bit(o - 1, 1) + Bit(o - 1, 2) + Bit(o - 1, 3)
                                                         + Bit(o - 1, 4) + Bit(o - 1, 5) + Bit(o - 1, 6) + Bit(o - 1, 7)]>>
 RECURSIVE WindowsFrom(_, _)
-WindowsFrom(S, w) == IF w > 255 THEN <<>>
-                     ELSE IF \E t \in S : t \div 256 = w THEN <<WindowOf(S, w)>> \o WindowsFrom(S, w + 1)
-                     ELSE WindowsFrom(S, w + 1)
-BitmapOf(S) == WindowsFrom(S, 0)
+WindowsFrom(S, W) == IF W = {} THEN <<>>
+                     ELSE LET w == CHOOSE x \in W : \A y \in W : x <= y IN <<WindowOf(S, w)>> \o WindowsFrom(S, W \ {w})
+BitmapOf(S) == WindowsFrom(S, {t \div 256 : t \in S})
 
 (* ------------------------------------------------------------------ faults on octet strings *)
 \* fault descriptors <<kind, position / octet, argument>> applied to an encoding
@@ -348,12 +370,24 @@ ApplyFault(b, ft) ==
       [] ft[1] = "ext"   -> Append(b, ft[2])                                 \* one more octet inside the RDATA
       [] ft[1] = "bump"  -> [b EXCEPT ![ft[2]] = (b[ft[2]] + ft[3]) % 256]   \* +1 / +255 (= -1) on one octet
       [] ft[1] = "set"   -> [b EXCEPT ![ft[2]] = ft[3]]
+      [] ft[1] = "ptr"   -> [b EXCEPT ![ft[2]] = 192 + (ft[3] \div 256), ![ft[2] + 1] = ft[3] % 256]     \* a compression pointer to message offset ft[3]
+      \* "overlap": octet 1 becomes a label length reaching to the last octet, the last octet the root label,
+      \* and octets ft[2], ft[2]+1 a pointer to the start of the RDATA (message offset ft[3]): a name read at
+      \* ft[2] is that long label, its field is still only the 2-octet pointer
+      [] ft[1] = "ovl"   -> [b EXCEPT ![1] = Len(b) - 2, ![Len(b)] = 0, ![ft[2]] = 192 + (ft[3] \div 256), ![ft[2] + 1] = ft[3] % 256]
       [] ft[1] = "none"  -> b
-\* positions faulted octet by octet: everything in short encodings, both ends of long ones
-FaultPos(n) == {i \in 1..n : i <= 24 \/ i > n - 3}
-FaultSet(b) == LET n == Len(b) IN
-       {<<"trunc", k, 0>> : k \in {k \in 0..(n - 1) : k < 24 \/ k >= n - 3}}
+\* positions faulted octet by octet: every octet of an encoding of at most 40 octets, both ends
+\* of longer ones (those carry a 255-octet string or a maximal name; their middle is filler)
+FaultPos(n) == IF n <= 40 THEN 1..n ELSE {i \in 1..n : i <= 8 \/ i > n - 3}
+\* off = offset of the RDATA in the message: pointers to offset 0 (a name in front of the RDATA)
+\* and to the pointer's own position
+FaultSet(b, off) == LET n == Len(b) IN
+       {<<"none", 0, 0>>}
+  \cup {<<"trunc", i - 1, 0>> : i \in FaultPos(n)}
   \cup {<<"ext", x, 0>> : x \in {0, 1, 255}}
   \cup {<<"bump", i, d>> : i \in FaultPos(n), d \in {1, 255}}
   \cup {<<"set", i, x>> : i \in FaultPos(n), x \in {0, 255, 192}}
+  \cup {<<"ptr", i, 0>> : i \in FaultPos(n) \ {n}}
+  \cup {<<"ptr", i, off + i - 1>> : i \in FaultPos(n) \ {n}}
+  \cup (IF n \in 5..65 THEN {<<"ovl", i, off>> : i \in 2..(n - 2)} ELSE {})
 =============================================================================
